@@ -29,12 +29,20 @@ CHECKS = {
    technique='deterministic simulation of threads: baton-passing real threads pre-empted at every bytecode of cacheutils (sys.monitoring INSTRUCTION events) and at every lock operation, seeded random/PCT/pre-emption-bounded schedules plus a single-pre-emption sweep, linearizability check against a reference cache, schedule re-search + ddmin replay',
    text='2-4 logical threads run seeded programs on one shared LRI/LRU whose lock is a simulated RLock; the simulator alone decides which thread runs at each of ~10^2-10^3 pre-emption points per run. The recorded history (invoke/return stamps from the global step counter, outcomes, probed final contents and eviction order) must be linearizable against models/lru_model.py; impossible exceptions, capacity overflow, deadlock, livelock (step cap) and an unusable cache afterwards are violations too. Floor on every invocation: for every ordered pair of 17 operations, both classes, thread A pre-empted once at each of its yield points with thread B run in between (about 67k schedules). Sampling of schedules, not proof.',
    note='Assumes the GIL (C-level dict operations on int/str/tuple keys atomic); counters are outside the concurrent specification; known finding C03-F1 (lock-free inherited readers see a prefix of one in-flight operation) is classified by an executable relaxed oracle and reported as KNOWN-FINDING, everything else is strict. 14 seeded mutants (each lock removed, narrowed critical section, non re-entrant lock, per-call lock) detected in the quick tier.'),
+ 'C04': dict(engine='simfs', category='fault_enumeration', design_ref='4.3',
+   technique='deterministic simulation with crash injection: in-memory POSIX file system with durability journal under the real AtomicSaver and CPython buffered/text file objects; every crash point of every workload enumerated; process-death and power-loss images judged; ordering oracle on the event log',
+   text='For each workload (80 fixed + seeded: text/binary, overwrite, part_file, buffering, buffer size, umask, relative path, destination absent/present, body of write/flush calls) the fault-free run is recorded and the workload is re-executed with the machine stopped immediately before every seam event and after the last. Each snapshot is judged under process death (kernel view) and under power loss (every metadata-journal prefix at or after the last fsync x {no un-synced data, all of it, a seeded subset with a torn tail}): the destination must read exactly the old or exactly the complete new content. Independently the event log must show that a name is bound to the part file only when its kernel data is complete and fsynced, never written afterwards, and that the destination is rebound in exactly one call. Exhaustive over crash points per workload, seeded over workloads.',
+   note='Trusts the simfs model of POSIX rename/link/open(O_EXCL) and its power-loss model (metadata durable in issue order, data durable up to last fsync, later writes any subset/torn). Directory fsync is not required. 9 seeded mutants (fsync/flush dropped or reordered, rename before flush, writing the destination directly, unlink+rename, copy instead of link) detected in the quick tier; closing after the rename is correctly not flagged.'),
+ 'C05': dict(engine='simfs', category='fault_enumeration', design_ref='4.4',
+   technique='deterministic simulation with fault injection: errno / short-write / disk-full / second-party faults injected at every applicable seam event of every workload (single faults enumerated, pairs sampled), judged by a post-state oracle incl. an immediate retry',
+   text='For each workload (64 fixed + seeded over overwrite, overwrite_part, rm_part_on_exc, text_mode, file_perms, umask, buffering, initial destination and part file, raising bodies) every fault of the alphabet (open EACCES/ENOSPC/EMFILE/EROFS, chmod EPERM, raw write ENOSPC/EIO/EDQUOT/short/persistent disk-full, fsync EIO/ENOSPC, close EIO, rename EACCES/EPERM/ENOSPC/EIO, link EPERM/EMLINK, clean-up unlink EACCES/EIO as a second fault, another process creating the destination or the part file) is injected at every event it applies to; afterwards: destination bytes and mode unchanged unless published, an exception reached the caller, no part file of ours is left with rm_part_on_exc, an immediate fault-free retry succeeds unless legitimately refused, a pre-existing part file is untouched without overwrite_part, completed saves have the specified permissions.',
+   note='Fault alphabet = the steps C05 names; stat/lexists/fcntl/fdopen are not faulted. Narrow relaxations tied to the injected fault (clean-up unlink itself faulted; failure after publication on the link path). Found and fixed C05-F1 (known_findings.json); 12 seeded mutants detected in the quick tier, removing the part file although rm_part_on_exc=False is correctly not flagged.'),
  'C12': dict(engine='simnet', category='exploration', design_ref='4.5',
    technique='deterministic simulation: scripted stream socket + discrete-event clock, seeded delivery/timeout/partial-send schedules, reference stream model, ddmin replay',
    text='Seeded search over byte streams, their composition into deliveries, timeout placements, kernel recv/send split scripts, recvsize/maxsize settings and call programs, executed against the real BufferedSocket/NetstringSocket over a simulated socket and clock; after every call (including every call that raised) the result is compared with an independent whole-stream model and byte conservation (returned + buffered + undelivered == stream; peer + kernel + send buffer == handed over) is checked; bounded liveness after faults stop. A fixed floor enumerates every composition of four short delimiter-rich streams. Sampling, not proof.',
    note='Trusts the SimSocket contract (never more than asked, b"" only after close, EWOULDBLOCK at timeout 0, send accepts 1..n bytes), sizes >= 1, and the reference model in checks/c12.py; 16 seeded mutants of socketutils are detected in the quick tier (DESIGN 4.5).'),
 }
-PENDING = {k: 'claimed by DESIGN.md but its check is not built yet in this commit (engine under construction); listed here only until the check lands' for k in ['C04','C05','C15','C18']}
+PENDING = {k: 'claimed by DESIGN.md but its check is not built yet in this commit (engine under construction); listed here only until the check lands' for k in ['C15','C18']}
 
 def main():
     checks = []
